@@ -167,7 +167,11 @@ def sweep_harmless(jobs=3, only=None):
     for d in sorted(_g.glob(os.path.join(VERIF, "seeded", "harmless", "H*-*"))):
         h = os.path.basename(d)
         if h not in props_of:
-            props_of[h] = allp     # rewrites of the second batch: every property's check is run against each
+            # rewrites of the second batch: the checks of every property whose code the rewrite touches (by theme)
+            props_of[h] = {"H5": ["C02", "C05", "C06", "C08", "C09", "C10", "C13", "C14", "C16", "C18"],
+                           "H6": ["C09", "C14", "C15", "C19"],
+                           "H7": ["C01", "C02", "C03", "C04", "C16", "C20"],
+                           "H8": ["C05", "C06", "C08", "C10", "C11", "C12", "C13", "C19"]}.get(h[:2], allp)
     if only:
         props_of = {h: ps for h, ps in props_of.items() if h in only}
     jobsl = [(h, p) for h in sorted(props_of) for p in props_of[h]]
